@@ -23,6 +23,21 @@ func H_PoolBounds() {
 	server.ZZMasterHarness(hooks(), init, max, K)
 }
 
+// H_BatchOvertaken: as H_PoolBounds, but a spawn goroutine started by the loop
+// runs only when the schedule says so: worker exits and reports may be
+// processed between the reservation of a batch and the moment it starts its
+// processes.
+func H_BatchOvertaken() {
+	M, K := 3, 5
+	if zv.Tier() == 1 {
+		M, K = 4, 6
+	}
+	max := 1 + zv.Choose(M)
+	init := 1 + zv.Choose(max)
+	h := server.ZZHooks2{ZZHooks: hooks(), DeferGo: zv.DeferGoroutines, RunGo: zv.RunPendingGoroutine}
+	server.ZZBatchHarness(h, init, max, K)
+}
+
 // W_Witness: vacuity guard (the harness observes the pool size).
 func W_Witness() {
 	h := hooks()
